@@ -10,11 +10,12 @@
    input's format - modelled as the code does it); luafmt --overwrite writes X.p8 itself; build writes OUT.
    Histories are drawn at random (one successor per step) and printed step by step. *)
 EXTENDS Naturals, Sequences, FiniteSets, TLC, Json
-CONSTANTS MaxSteps, NSeq
+CONSTANTS MaxSteps, NSeq,
+          Mode        \* "all": every command; "png": only commands that write or replace a .p8.png file (label-picture histories)
 Secs == {"gfx", "gff", "map", "sfx", "music"}
 Srcs == {"a.p8", "b.p8.png", "out.p8", "out.p8.png"}                \* files commands are applied to
-Paths == Srcs \cup {"a_fmt.p8", "b_fmt.p8.png", "out_fmt.p8", "out_fmt.p8.png"}
-IsPng(p) == p \in {"b.p8.png", "out.p8.png", "b_fmt.p8.png", "out_fmt.p8.png"}
+Paths == Srcs \cup {"a_fmt.p8", "b_fmt.p8.png", "out_fmt.p8", "out_fmt.p8.png", "c.p8.png"}
+IsPng(p) == p \in {"b.p8.png", "out.p8.png", "b_fmt.p8.png", "out_fmt.p8.png", "c.p8.png"}
 Stem(p) == CASE p = "a.p8" -> "a" [] p = "b.p8.png" -> "b" [] p \in {"out.p8", "out.p8.png"} -> "out"
 FmtName(p, png) == Stem(p) \o (IF png THEN "_fmt.p8.png" ELSE "_fmt.p8")
 Absent == [exists |-> FALSE, lua |-> "none", sec |-> [s \in Secs |-> "empty"], label |-> "none"]
@@ -24,6 +25,7 @@ vars == <<fs, step, sid, last>>
 Init == /\ fs = [p \in Paths |->
                IF p = "a.p8" THEN Cart("progA", [s \in Secs |-> "A"], "labelA")
                ELSE IF p = "b.p8.png" THEN Cart("progB", [s \in Secs |-> "B"], "picB")
+               ELSE IF p = "c.p8.png" /\ Mode = "png" THEN Cart("progB", [s \in Secs |-> "B"], "picC")   \* a second picture to copy around
                ELSE Absent]
         /\ step = 0 /\ sid \in 1..NSeq /\ last = <<>>
 \* what ends up at path p when a cart (lua, sec, label section id) is written there:
@@ -38,10 +40,17 @@ Cmds ==
   {[c |-> "luafmt", src |-> s, dst |-> FmtName(s, IsPng(s)), ok |-> b] : s \in Srcs, b \in BOOLEAN} \cup
   {[c |-> "luafmt-overwrite", src |-> s, dst |-> s, ok |-> b] : s \in {"a.p8", "out.p8"}, b \in BOOLEAN} \cup
   {[c |-> "build", src |-> s, dst |-> o, sect |-> x, kind |-> k, ok |-> b] :
-       s \in {"a.p8", "b.p8.png"}, o \in {"out.p8", "out.p8.png"}, x \in Secs \cup {"lua"}, k \in {"from", "empty"}, b \in BOOLEAN}
-Enabled(cmd) == fs[cmd.src].exists
+       s \in {"a.p8", "b.p8.png"}, o \in {"out.p8", "out.p8.png"}, x \in Secs \cup {"lua"}, k \in {"from", "empty"}, b \in BOOLEAN} \cup
+  \* not a p8tool command: the user copies one cart file over another of the same format (so the picture / label section
+  \* that later writes to that path must keep is not the one an earlier write saw)
+  {[c |-> "cp", src |-> s, dst |-> d, ok |-> TRUE] : s \in {p \in Paths : IsPng(p)}, d \in {"out.p8.png", "b_fmt.p8.png", "out_fmt.p8.png"}} \cup
+  {[c |-> "cp", src |-> s, dst |-> d, ok |-> TRUE] : s \in {p \in Paths : ~IsPng(p)}, d \in {"out.p8", "a_fmt.p8", "out_fmt.p8"}}
+Enabled(cmd) == /\ fs[cmd.src].exists
+                /\ (cmd.c = "cp" => cmd.src # cmd.dst /\ fs[cmd.src] # fs[cmd.dst])
+                /\ (Mode = "png" => IsPng(cmd.dst))
 Apply(cmd) ==
   IF ~cmd.ok THEN fs
+  ELSE IF cmd.c = "cp" THEN [fs EXCEPT ![cmd.dst] = fs[cmd.src]]
   ELSE IF cmd.c \in {"writep8", "luamin", "luafmt", "luafmt-overwrite"} THEN
        [fs EXCEPT ![cmd.dst] = Written(cmd.dst, fs[cmd.src].lua, fs[cmd.src].sec, LabelSec(cmd.src))]
   ELSE \* build: one section from a source or emptied, the rest from OUT's previous contents (or empty)
@@ -52,8 +61,11 @@ Apply(cmd) ==
                   ELSE IF prev.exists THEN prev.lua ELSE "none"
            lab == IF prev.exists THEN LabelSec(cmd.dst) ELSE "none"
        IN [fs EXCEPT ![cmd.dst] = Written(cmd.dst, lua, sec, lab)]
+\* in "png" mode half of the steps are the user's cp (so that write / replace-the-picture / write sequences are frequent)
+Pool == IF Mode = "png" /\ RandomElement({0, 1}) = 1 /\ \E c \in Cmds : c.c = "cp" /\ Enabled(c)
+        THEN {c \in Cmds : c.c = "cp" /\ Enabled(c)} ELSE {c \in Cmds : Enabled(c)}
 Next == /\ step < MaxSteps
-        /\ \E cmd \in {RandomElement({c \in Cmds : Enabled(c)})} :
+        /\ \E cmd \in {RandomElement(Pool)} :
              /\ fs' = Apply(cmd) /\ step' = step + 1 /\ sid' = sid /\ last' = cmd
 Spec == Init /\ [][Next]_vars
 Emit == step > 0 => PrintT(ToJson([sid |-> sid, step |-> step, cmd |-> last, fs |-> fs]))
@@ -62,6 +74,7 @@ MCNext == step < 2 /\ \E cmd \in Cmds : Enabled(cmd) /\ fs' = Apply(cmd) /\ step
 MCSpec == Init /\ [][MCNext]_vars
 FailureIsNoop == [][(~last'.ok) => fs' = fs]_vars
 ProgramsOnlyFromSources == \A p \in Paths : fs[p].exists => fs[p].lua \in {"progA", "progB", "none"}
-PictureStable == [][\A p \in Paths : (IsPng(p) /\ fs[p].exists /\ fs'[p].exists) => fs'[p].label = fs[p].label]_vars
+PictureStable == [][(last'.c # "cp") => \A p \in Paths : (IsPng(p) /\ fs[p].exists /\ fs'[p].exists) => fs'[p].label = fs[p].label]_vars
 SourcesUntouched == [][\A p \in {"a.p8", "b.p8.png"} : (last'.c = "build") => fs'[p] = fs[p]]_vars
+\* a p8tool command never changes the picture of an existing .p8.png (only the user's cp does)
 =============================================================================
